@@ -35,6 +35,7 @@ inductive Op where
   | plcTime
   | setPlcTime (us : Nat)
   | withBlock (body : List Op) (bodyRaises : Bool)
+  | pending (replies : List Bytes)   -- harness only: replies already waiting in the socket's queue (scripted / stale)
 
 partial def op? : Sexp → Option Op
   | .list [.atom "open"] => some .open
@@ -50,6 +51,7 @@ partial def op? : Sexp → Option Op
       pure (.gm { service := ← Sexp.toNat? svc, cls := ← lval? c, inst := ← lval? i, attr := ← lval? a, data := ← Sexp.bytes? d,
                   dataType := dt', name := ← Sexp.name? n, connected := ← bool? conn, unconnectedSend := ← bool? ucs,
                   route := ← route? rt })
+  | .list (.atom "pending" :: rs) => (rs.mapM Sexp.bytes?).map Op.pending
   | .list [.atom "with", .list body, r] => do
       let b ← body.mapM op?
       let r' ← bool? r
@@ -65,11 +67,11 @@ def listIdentityOp (w : W) : W × String :=
   | .error e => (w1, renderExn e)
   | .ok reply =>
       match reply with
-      | none => (w1, "(identity {})")
+      | none => (w1, "(identity (d))")
       | some raw =>
           match Ident.parseListIdentity raw with
           | some v => (w1, "(identity " ++ v.toSexp.render ++ ")")
-          | none => (w1, "(identity {})")
+          | none => (w1, "(identity (d))")
 
 /-- get_module_info(slot): dict or ResponseError -/
 def modInfoOp (w : W) (slot : Nat) : W × String :=
@@ -182,6 +184,9 @@ partial def runOp (rnd : List Bytes) (w : W) : Op → W × List Bytes × String
   | .plcInfo m => let (w', out) := plcInfoOp w m; (w', rnd, out)
   | .plcTime => let (w', out) := plcTimeOp w; (w', rnd, out)
   | .setPlcTime u => let (w', out) := setPlcTimeOp w u; (w', rnd, out)
+  | .pending rs =>
+      -- the queue belongs to the socket object: without a socket there is nothing to pre-load
+      (if w.drv.hasSock then { w with net := { w.net with pending := rs.map some } } else w, rnd, "(ok N)")
   | .withBlock body raises =>
       -- __enter__: open()
       let (w1, r) := openDrv hookAll w (rnd.headD [])
